@@ -75,6 +75,11 @@ CHECKS = {
          "The file-system model is checked for all histories of up to 3 runs with every crash step and both crash kinds. TLC emits the history skeletons; for two-run histories the driver makes EVERY intercepted write/append/unlink call of the real earlier run a fault point (Fail = the call raises, Kill = a forked child exits there), adds completed different runs and sampled three-run histories, and the CLI verify step with stale '<pin>.tsv' files; TLC accepts iff the observed run succeeds with the same result files as in a clean directory, leaves no intermediate file of its own, and the input file ends up as in the clean run.",
          "Trusted: TLC, the interposition layer (to_csv / to_parquet / ParquetWriter / write_table / os.unlink / Path.unlink), fork for Kill. The CLI is stopped after its verify step by a read_pin stub.",
          "DESIGN.md §3 C09"),
+ "C08": ("exploration",
+         "TLC model checking of Determinism.tla (run histories with every nondeterminism source as a free choice; with Brew.tla / ProteinGroups.tla for the mechanisms) + TLC trace validation (RunsTrace.tla) of digests recorded from real analysis sessions of one (dataset, seed): in-process repeats, fresh interpreters with other PYTHONHASHSEED values, worker counts, every order of re-fed models",
+         "Histories are explored, not exhausted: for each (dataset, seed) the full analysis (brew with a LinearSVC model, assign_confidence with qvality PEPs, optionally protein level from a generated FASTA) is executed twice in one process, in fresh interpreters with different hash seeds and worker counts, and with the returned fold models fed back in every order (quick: 3 orders); TLC accepts a group iff all sessions have identical sha256 digests of score bytes, coefficients, fold membership, every result file and the FASTA maps (as sets), and re-feeding reproduces the first run's scores bit for bit.",
+         "Trusted: TLC, sha256 digests computed by the worker. Domain: FASTA with decoys.",
+         "DESIGN.md §3 C08"),
 }
 PENDING = {}   # id -> reason (not_applicable)
 
